@@ -21,6 +21,7 @@ type Config struct {
 	Samples     int
 	TimeLimit   time.Duration
 	Solver      string
+	Seed        int64
 }
 
 type SamplePath struct {
@@ -80,6 +81,8 @@ type Explorer struct {
 	crossCheck  string
 	allocLimit  int
 	deadline    time.Time
+	doneSeen    int
+	rng         uint64
 }
 
 func (x *Explorer) push(p []Decision) {
@@ -119,6 +122,30 @@ func (x *Explorer) finish() {
 	x.mu.Unlock()
 }
 
+// sampleSlot implements seeded reservoir sampling over completed paths: it reports whether the
+// current path should be recorded as a witness sample and in which slot.
+func (x *Explorer) sampleSlot(slot *int) bool {
+	x.mu.Lock()
+	defer x.mu.Unlock()
+	i := x.doneSeen
+	x.doneSeen++
+	k := x.cfg.Samples
+	if k <= 0 {
+		return false
+	}
+	if i < k {
+		*slot = i
+		return true
+	}
+	x.rng = x.rng*6364136223846793005 + 1442695040888963407
+	j := int((x.rng >> 33) % uint64(i+1))
+	if j < k {
+		*slot = j
+		return true
+	}
+	return false
+}
+
 func (x *Explorer) noteUnknown(what string) {
 	x.mu.Lock()
 	if len(x.res.Unknowns) < 50 {
@@ -142,6 +169,7 @@ func (x *Explorer) crossChecked(kind string) {
 func Explore(P *Program, entry *ssa.Function, cfg Config) *Result {
 	x := &Explorer{P: P, entry: entry, cfg: cfg, seenCex: map[string]bool{}, reverseMaps: cfg.ReverseMaps, crossCheck: cfg.CrossCheck}
 	x.cond = sync.NewCond(&x.mu)
+	x.rng = uint64(cfg.Seed)*2654435761 + 12345
 	x.res = Result{Harness: entry.Name(), Pkg: entry.Pkg.Pkg.Path(), Params: cfg.Params, Paths: map[string]int{}, Asserts: map[string]int{},
 		Funcs: map[string]int{}, Stubs: map[string]int{}, CrossChecks: map[string]int{}, ForkSites: map[string]int{}}
 	if cfg.TimeLimit > 0 {
@@ -238,8 +266,12 @@ func (x *Explorer) record(e *Exec, end pathEnd, covers map[string]bool) {
 		x.seenCex[key] = true
 		x.res.Cex = append(x.res.Cex, CexOut{Kind: v.Kind, Msg: v.Msg, Inputs: e.inputsOf(v.Model), Observes: v.Observes})
 	}
-	if end.kind == "done" && len(x.res.Samples) < x.cfg.Samples && e.sample != nil {
-		x.res.Samples = append(x.res.Samples, *e.sample)
+	if end.kind == "done" && e.sample != nil {
+		if e.sampleSlot >= len(x.res.Samples) {
+			x.res.Samples = append(x.res.Samples, *e.sample)
+		} else if e.sampleSlot >= 0 {
+			x.res.Samples[e.sampleSlot] = *e.sample
+		}
 	}
 	total := 0
 	for _, n := range x.res.Paths {
@@ -381,7 +413,8 @@ func (e *Exec) RunPath(entry *ssa.Function, prefix []Decision) (end pathEnd) {
 				e.viol = append(e.viol, &Violation{Msg: end.msg, Model: e.model, Kind: end.kind, Observes: e.renderObserves(e.model)})
 			}
 		}
-		if end.kind == "done" && len(e.X.res.Samples) < e.X.cfg.Samples {
+		if slot := -1; end.kind == "done" && e.X.sampleSlot(&slot) {
+			e.sampleSlot = slot
 			if e.safeModel() {
 				cs := make([]string, 0, len(e.covers))
 				for c := range e.covers {
